@@ -46,6 +46,7 @@ func verifC18ParsePrint(src string) string {
 func VerifC18ConcurrentParse() {
 	a := verifChoice("first", len(verifC18ConcSrc))
 	b := verifChoice("second", len(verifC18ConcSrc))
+	verifAssume(a <= b) // the two goroutines are interchangeable
 	var got [2]string
 	var wg sync.WaitGroup
 	verifPreemptions(1)
